@@ -45,7 +45,7 @@ def main():
                 open(p, "w").write(s.replace(e["old"], e["new"]))
             rc, out = sh("go build ./...", REPO)
             if rc != 0:
-                results.append((m, "DOES-NOT-COMPILE", out[-400:])); continue
+                raise RuntimeError("DOES-NOT-COMPILE " + out[-400:])
             tst = ""
             if tests:
                 pk = " ".join(sorted(set("./" + os.path.dirname(e["file"]) + "/..." for e in m["edits"]) | set(m.get("test_pkgs", []))))
